@@ -26,6 +26,7 @@ import itertools
 import logging
 import os
 import shutil
+import sys
 import tempfile
 import warnings
 
@@ -71,12 +72,13 @@ ASSUMPTIONS = [
     "wrong content of right length is served / pre-placed only for archive formats whose decompression, the way Rally performs it, "
     "verifies a checksum: .bz2 .gz .zst .zip .tar.bz2 - not plain .tar, not uncompressed sources, and not .tar.gz/.tgz (tarfile.extractall "
     "stops at the end-of-archive marker and never reads the gzip trailer, so the CRC is not verified)",
-    "pbzip2 / pzstd are absent, so .bz2 / .zst use the library path; .gz uses pigz with library fallback",
+    "pbzip2 / pzstd are absent: .bz2 / .zst use the library path, or (tools=shims) stand-in scripts on a private PATH that behave like the "
+    "real tools (bytes on stdout, non-zero exit on damaged / truncated input); .gz uses pigz with library fallback, or (tools=none) the library",
     "multi-GB corpora are represented by kilobyte stand-ins; the 50 000-line offset entries by 0.6-1.3 MB files",
     "mtimes of pre-existing files lie in the past (document 1 700 000 000, tar members 1 600 000 000), files written by a run are newer",
 ]
-BUDGET = {"quick": 800, "thorough": 1500}
-WALL_BUDGET_S = {"quick": 75, "thorough": 1200}
+BUDGET = {"quick": 1000, "thorough": 4000}
+WALL_BUDGET_S = {"quick": 55, "thorough": 1200}
 REQUIRED_CLASSES = {
     "earlier-run:crashed": 20,
     "offset:stale": 20,
@@ -91,15 +93,18 @@ DOC_NAME = "documents.json"
 TRACK_NAME = "c14track"
 CORPUS_NAME = "c14corpus"
 MAX_DECOMPRESSIONS = 4
-STALL_READ_TIMEOUT = 0.25
+STALL_READ_TIMEOUT = 0.2
 RETRIABLE = ("short", "cut-chunked", "stall")
 
 SIG_EMPTY = "empty-doc-accepted"  # F10
-SIG_TORN = "torn-offset-table-trusted"  # F11 (a)
+SIG_TORN = "interrupted-offset-table-build-trusted"  # F11 (a)
 SIG_STALE = "stale-offset-table-trusted"  # F11 (b)
+SIG_PARTIAL = "partial-decompression-accepted"
 
 _SERVER = None
 _URLLIB3_PROXY = None
+_BIN = None  # private PATH entries: <_BIN>/shims (pbzip2, pzstd stand-ins), <_BIN>/none (empty: not even pigz)
+_ORIG_PATH = os.environ.get("PATH", "")
 _KEYS = itertools.count()
 _ENUM_EXCLUDED = {"count": 0}
 
@@ -123,8 +128,47 @@ def _no_sleep(_seconds):
     return None
 
 
+_SHIM = """#!{python}
+# stand-in for pbzip2 / pzstd (absent here) so that Rally's external-tool path is exercised for .bz2 / .zst as well:
+# <tool> <flags...> -c FILE  ->  decompressed bytes on stdout, exit status != 0 on damaged or truncated input
+import os, sys
+path = sys.argv[-1]
+try:
+    if os.path.basename(sys.argv[0]) == "pbzip2":
+        import bz2
+        d = bz2.BZ2Decompressor()
+    else:
+        import zstandard
+        d = zstandard.ZstdDecompressor().decompressobj()
+    with open(path, "rb") as f:
+        while True:
+            chunk = f.read(1 << 16)
+            if not chunk:
+                break
+            sys.stdout.buffer.write(d.decompress(chunk))
+    if not d.eof:
+        raise EOFError("premature end of input")
+    sys.stdout.buffer.flush()
+except Exception as e:
+    sys.stderr.write(str(e))
+    sys.exit(1)
+"""
+
+
+def _make_shims():
+    d = tempfile.mkdtemp(prefix="verif-c14-bin-")
+    os.makedirs(os.path.join(d, "shims"))
+    os.makedirs(os.path.join(d, "none"))
+    for tool in ("pbzip2", "pzstd"):
+        p = os.path.join(d, "shims", tool)
+        with open(p, "w", encoding="utf-8") as f:
+            f.write(_SHIM.format(python=sys.executable))
+        os.chmod(p, 0o755)
+    return d
+
+
 def setup():
-    global _SERVER, _URLLIB3_PROXY
+    global _SERVER, _URLLIB3_PROXY, _BIN
     console.init(quiet=True)
     for name in ("esrally", "urllib3"):
         lg = logging.getLogger(name)
@@ -144,14 +188,19 @@ def setup():
     for var in ("http_proxy", "HTTP_PROXY", "https_proxy", "HTTPS_PROXY", "all_proxy", "ALL_PROXY"):
         os.environ.pop(var, None)
     net.init()
+    _BIN = _make_shims()
     _SERVER = httpfault.FaultServer().start()
 
 
 def teardown():
-    global _SERVER
+    global _SERVER, _BIN
     if _SERVER is not None:
         _SERVER.stop()
         _SERVER = None
+    if _BIN is not None:
+        shutil.rmtree(_BIN, ignore_errors=True)
+        _BIN = None
+    os.environ["PATH"] = _ORIG_PATH
 
 
 def evidence_extra():
@@ -304,7 +353,7 @@ def _normalise(case):
             case["disk"]["offset"] = ["truncated", case["disk"]["offset"][1] % (len(ref) + 1)]
     # a garbage page must be noticeable for an uncompressed source of undeclared size: give it a line count that differs
     lines = _declared(case)[3]
-    case["script"] = [o if o[0] != "garbage" else ["garbage", lines + 1 + (o[1] % 3)] for o in case["script"]]
+    case["script"] = [o if o[0] != "garbage" else ["garbage", (lines + 1 if fmt == "plain" else 1) + (o[1] % 3)] for o in case["script"]]
     # guard (ii): kept, wrong, non-empty and same line count as declared -> not noticeable by anybody -> declare the size
     d0 = _initial_doc(case)
     if d0 is not None and d0 != _published(case) and len(d0) > 0 and _doc_kept(case) and disk.count_lines(d0) == lines:
@@ -365,7 +414,7 @@ def _weighted(*pairs):
 
 @st.composite
 def _segment(draw):
-    kind = draw(_weighted(("ok", 3), ("retry-ok", 4), ("boundary", 1), ("exhaust", 1), ("status", 2), ("corrupt", 2), ("garbage", 2), ("mixed", 2), ("stall", 1)))
+    kind = draw(_weighted(("ok", 6), ("retry-ok", 8), ("boundary", 2), ("exhaust", 2), ("status", 4), ("corrupt", 4), ("garbage", 4), ("mixed", 4), ("stall", 1)))
     faults = lambda lo, hi: [list(o) for o in draw(st.lists(_FAULT, min_size=lo, max_size=hi))]  # noqa: E731
     if kind == "ok":
         return [draw(_OK)]
@@ -390,7 +439,7 @@ def _segment(draw):
 
 @st.composite
 def _case(draw):
-    big = draw(_weighted((False, 7), (True, 1)))
+    big = draw(_weighted((False, 5), (True, 1)))
     if big:
         meta = draw(_weighted((False, 3), (True, 1)))
         lines = draw(st.sampled_from([50000, 50001, 50001, 100001]))
@@ -421,7 +470,7 @@ def _case(draw):
     elif arch[0] == "longer":
         arch = ["longer", draw(st.integers(1, 9))]
     if big:
-        off = draw(st.sampled_from([["missing"], ["correct"], ["stale"], ["stale"], ["truncated"], ["truncated"], ["truncated"]]))
+        off = draw(_weighted((["missing"], 1), (["correct"], 1), (["stale"], 2), (["truncated"], 5)))
     else:
         off = draw(st.sampled_from([["missing"], ["missing"], ["correct"], ["stale"], ["stale"]]))
     if off[0] == "truncated":
@@ -434,6 +483,7 @@ def _case(draw):
 
     # what the preparation will have to do: fetch, work with local files, or whatever the free draws above give
     plan = draw(_weighted(("download", 5), ("local", 3), ("free", 2)))
+    last_crash_point = 9
     if plan == "download":
         offline = False
         if base_url == "absent":
@@ -450,7 +500,9 @@ def _case(draw):
             elif arch[0] != "missing":
                 decl["compressed"] = "right"
     elif plan == "local":
+        last_crash_point = 2  # only the offset table is written
         if draw(_weighted(("decompress", 2), ("use", 1))) == "decompress":
+            last_crash_point = 5
             if fmt == "plain":
                 fmt = draw(st.sampled_from(disk.FORMATS))
             arch = draw(_weighted((["correct"], 6), (["corrupt"], 1)))
@@ -465,7 +517,7 @@ def _case(draw):
     mode = draw(_weighted(("single", 4), ("crash", 3), ("complete", 1)))
     earlier = None
     if mode == "crash":
-        earlier = {"crash_after": draw(st.integers(0, 9)), "torn": draw(st.sampled_from([None, None, 1, 300, 700, 1000, 1023]))}
+        earlier = {"crash_after": draw(st.integers(0, last_crash_point + (4 if big else 0))), "torn": draw(st.sampled_from([None, None, 1, 300, 700, 1000, 1023]))}
         script = script + draw(_segment())
     elif mode == "complete":
         earlier = {"crash_after": None, "torn": None}
@@ -482,6 +534,7 @@ def _case(draw):
         "script": script[:12],
         "earlier": earlier,
         "probe_lines": sorted(set(draw(st.lists(st.integers(0, 1024), max_size=3)))),
+        "tools": draw(_weighted(("default", 5), ("shims", 2), ("none", 1))),
     }
     return _normalise(case)
 
@@ -670,6 +723,11 @@ def run_case(case, obs):
         bodies = {env.target_name: _archive_bytes(case) if env.archive_name else published}
         _SERVER.register(key, bodies, case["script"])
         _URLLIB3_PROXY.read_timeout = STALL_READ_TIMEOUT if has_stall else None
+        tools = case.get("tools", "default")
+        if tools == "shims":
+            os.environ["PATH"] = os.path.join(_BIN, "shims") + os.pathsep + _ORIG_PATH
+        elif tools == "none":
+            os.environ["PATH"] = os.path.join(_BIN, "none")
         initial = disk.snapshot(tmp)
 
         # ---------------- earlier run (forked child; killed at a crash point or run to its end)
@@ -711,7 +769,7 @@ def run_case(case, obs):
         log = _SERVER.log(key)[requests_before:]
 
         # ---------------- classes
-        obs.cls(f"format:{case['format']}", f"path:{case['path']}", outcome if outcome != "raised" else f"raised:{type(exc).__name__}")
+        obs.cls(f"format:{case['format']}", f"path:{case['path']}", f"tools:{tools}", outcome if outcome != "raised" else f"raised:{type(exc).__name__}")
         if outcome == "raised":
             obs.cls("raised")
         for o in log:
@@ -762,10 +820,14 @@ def run_case(case, obs):
                 if data != published:
                     if len(data) == 0 and env.unc is None:
                         sig = SIG_EMPTY
-                    elif table_kept and after[table_path][1] >= after[doc_path][1]:
-                        # the table is trusted, so the line count is never compared; SIG_TORN if the table is the unfinished
-                        # work of the crashed earlier run, SIG_STALE if it was there from the start
-                        sig = SIG_STALE if initial.get(table_path, (None,))[1:] == after[table_path][1:] else SIG_TORN
+                    elif (env.unc is None and env.archive_name and published.startswith(data) and disk.count_lines(data) == env.lines
+                          and rep is not None and rep["status"] in ("crashed", "raised") and initial.get(doc_path, (None,))[1:] != after[doc_path][1:]):
+                        # what the killed / failed decompression of the earlier run left: a prefix that ends inside the last line
+                        sig = SIG_PARTIAL
+                    elif table_kept and after[table_path][1] >= after[doc_path][1] and initial.get(table_path, (None,))[1:] == after[table_path][1:]:
+                        sig = SIG_STALE  # a table that was there from the start is trusted, so the line count is never compared
+                    elif table_kept and after[table_path][1] >= after[doc_path][1] and _build_interrupted(rep):
+                        sig = SIG_TORN  # same, but the table is the unfinished work of the earlier run (killed, or the build raised)
                     else:
                         sig = "doc-content-mismatch"
                     common = os.path.commonprefix([data, published])
@@ -788,9 +850,17 @@ def run_case(case, obs):
         if outcome == "raised" and _clean(case):
             obs.violation("clean-scenario-failed", f"nothing is wrong in this scenario but preparation raised {type(exc).__name__}: {str(exc)[:300]}")
     finally:
+        os.environ["PATH"] = _ORIG_PATH
         _URLLIB3_PROXY.read_timeout = None
         _SERVER.unregister(key)
         shutil.rmtree(tmp, ignore_errors=True)
+
+
+def _build_interrupted(rep):
+    """the earlier run was killed, or its offset-table build was aborted by an exception (e.g. UnicodeDecodeError)"""
+    if rep is None:
+        return False
+    return rep["status"] == "crashed" or (rep["status"] == "raised" and "prepare_file_offset_table" in (rep.get("raised_in") or []))
 
 
 def _clean(case):
@@ -802,6 +872,8 @@ def _clean(case):
         return False
     if _static_region(case) is not None:
         return False
+    if any(o[0] == "stall" for o in case["script"]):
+        return False  # the scaled-down read timeout is active for the whole case
     return len(case["script"]) >= 1 and case["script"][0][0] in ("ok", "ok-chunked", "ok-206")
 
 
@@ -819,6 +891,7 @@ def _base_case(**kw):
         "script": [["ok"]],
         "earlier": None,
         "probe_lines": [],
+        "tools": "default",
     }
     for k, v in kw.items():
         if isinstance(v, dict) and isinstance(case.get(k), dict):
@@ -880,13 +953,20 @@ def enumerate_cases(tier):
 # ------------------------------------------------------------------------------------------------ probes for findings
 PROBES = {
     SIG_EMPTY: _base_case(format=".bz2", decl={"compressed": "none", "uncompressed": "none"}, disk={"doc": ["empty"], "archive": ["correct"]}, script=[]),
+    # the document file is cut inside a multi-byte character: the first preparation fails with UnicodeDecodeError while it builds the
+    # table, the second one finds the (empty) table "up to date", skips build and line count, and returns
     SIG_TORN: _base_case(
-        docs={"n": 50001, "style": "short", "eol": "lf", "trailing": True, "meta": False, "salt": 0}, format="plain",
-        decl={"compressed": "none", "uncompressed": "right"}, disk={"doc": ["correct"], "offset": ["truncated", 8], "offset_age": "same"}, script=[],
+        docs={"n": 5, "style": "mixed", "eol": "lf", "trailing": True, "meta": False, "salt": 1}, format="plain",
+        decl={"compressed": "none", "uncompressed": "none"}, disk={"doc": ["truncated", 300]}, script=[], earlier={"crash_after": None, "torn": None},
     ),
     SIG_STALE: _base_case(
         docs={"n": 50001, "style": "short", "eol": "lf", "trailing": True, "meta": False, "salt": 0}, format=".tar.bz2",
         decl={"compressed": "right", "uncompressed": "right"}, disk={"doc": ["missing"], "archive": ["correct"], "offset": ["stale"], "offset_age": "older"},
         script=[],
+    ),
+    # 102 418 bytes whose last line starts at byte 102 370: the library path writes 100 KiB, then the rest; killed in between
+    SIG_PARTIAL: _base_case(
+        docs={"n": 1921, "style": "ascii", "eol": "lf", "trailing": True, "meta": False, "salt": 0}, format=".bz2",
+        decl={"compressed": "none", "uncompressed": "none"}, disk={"archive": ["correct"]}, script=[], earlier={"crash_after": 2, "torn": None},
     ),
 }
